@@ -2,6 +2,7 @@ import KrakenModel.Model.FileCleanup
 import KrakenModel.Model.ForceCleanup
 import KrakenModel.Proof.C10
 import KrakenModel.Proof.C10Pass
+import KrakenModel.Proof.C10Inv
 /-
   C10  Files awaiting write-back are never deleted; cleanup removes exactly idle files.
 
@@ -23,7 +24,8 @@ instance (o : Op) (n : Name) : Decidable (clears o n) := by unfold clears; exact
 
 /-- **C10 (1a)** In every state, whatever single operation runs next — a delete request for the file
 or any other, an access that reloads an entry and makes the LRU map evict its oldest entry, a normal or
-aggressive TTL pass, a usage-driven policy pass, with any configuration and disk usage — a file whose
+aggressive TTL pass, a usage-driven policy pass, a run of the periodic job (defaults applied, mode chosen
+from the disk usage), with any configuration and disk usage — a file whose
 persist flag is true is still on disk with the flag set, unless the operation is the clearing of that
 very flag. -/
 theorem persisted_survives_step (s : State) (o : Op) (n : Name) (hp : Protected s n) (hc : ¬ clears o n) :
@@ -77,6 +79,14 @@ theorem persisted_survives_step (s : State) (o : Op) (n : Name) (hp : Protected 
   | tick dt => exact prot_files hp rfl
   | cleanupTTL tti ttl p u => exact cleanupTTL_prot hp tti ttl p u
   | cleanupPolicy p u => exact cleanupPolicy_prot hp p u
+  | job interval c util u =>
+    simp only [step, jobCleanup]
+    have hp' : Protected { s with now := s.now + interval } n := prot_files hp rfl
+    split
+    · exact cleanupPolicy_prot hp' _ u
+    · split
+      · exact cleanupTTL_prot hp' _ _ _ u
+      · exact cleanupTTL_prot hp' _ _ _ u
 
 /-- **C10 (1b)** Hence for every history that never clears the flag of `n`: once marked, the file stays
 on disk through any interleaving of accesses, flag changes of other files, deletes, LRU evictions and
@@ -102,13 +112,15 @@ theorem ready_iff_idle (now : Int) (f : File) (tti ttl : Int) : ready now f tti 
   | none => simp
   | some l => simp
 
-/-- **C10 (2)** A normal pass (`ttlBasedCleanup` without lower threshold) over a store whose map does not
-evict (capacity 0, the default configuration's behaviour for any realistic number of files) and whose
-files all carry a last-access sidecar (every file created through the store does) leaves exactly the
+/-- **C10 (2)** A normal pass (`ttlBasedCleanup` without lower threshold) over a store in which no LRU
+eviction can happen — `Pass.Fits`: eviction is switched off (capacity 0: upload and download stores), or the
+map names only existing files, each once, and all files fit its capacity (the origin's cache store:
+capacity 2^20 by default) — and whose files all carry a last-access sidecar (every file created or loaded
+through the store does) leaves exactly the
 files that are protected or not idle: `(n, f)` is on disk afterwards iff it was before and it is
 persisted or neither older than the TTL nor idle for longer than the TTI — with the code's strict
 comparisons.  Nothing else is touched: contents, flags and sidecars of the remaining files are as before. -/
-theorem normal_pass_exact (s : State) (tti ttl : Int) (u : Usage) (hcap : s.cap = 0)
+theorem normal_pass_exact (s : State) (tti ttl : Int) (u : Usage) (hcap : Pass.Fits s)
     (hnd : (KV.keys s.files).Nodup) (hlat : ∀ p ∈ s.files, p.2.lat.isSome) (n : Name) (f : File) :
     (n, f) ∈ (cleanupTTL s tti ttl 0 u).1.files ↔
       (n, f) ∈ s.files ∧ (f.persist = some true ∨ ¬ idle s.now f tti ttl) := by
@@ -131,6 +143,31 @@ theorem normal_pass_exact (s : State) (tti ttl : Int) (u : Usage) (hcap : s.cap 
         | false => rfl
         | true => exact absurd ((ready_iff_idle _ _ _ _).mp h) hni
       simp [this]
+
+/-- **C10 (2')** For every reachable state — any history of creates, accesses, flag changes, deletes, clock
+advances, evictions and earlier passes from an empty store — the side conditions of (2) hold by themselves:
+it is enough that eviction is off or the files currently on disk fit the map's capacity (always the case
+for the origin's default capacity of 2^20 entries until a million blobs are cached). -/
+theorem normal_pass_exact_reachable (cap : Nat) (now0 : Int) (ops : List Op) (tti ttl : Int) (u : Usage)
+    (hfit : cap = 0 ∨ (KV.keys (run cap now0 ops).files).length ≤ cap) (n : Name) (f : File) :
+    let s := run cap now0 ops
+    (n, f) ∈ (cleanupTTL s tti ttl 0 u).1.files ↔
+      (n, f) ∈ s.files ∧ (f.persist = some true ∨ ¬ idle s.now f tti ttl) := by
+  intro s
+  have hwf := Inv.run_wf cap now0 ops
+  have hcap : s.cap = cap := by
+    suffices h : ∀ (l : List Op) (s0 : State), (l.foldl step s0).cap = s0.cap from h ops _
+    intro l
+    induction l with
+    | nil => intro s0; rfl
+    | cons o l ih =>
+      intro s0
+      rw [List.foldl_cons, ih]
+      exact Inv.step_cap s0 o
+  refine normal_pass_exact s tti ttl u ?_ hwf.fn hwf.lat n f
+  rcases hfit with h | h
+  · exact Or.inl (by rw [hcap]; exact h)
+  · exact Or.inr ⟨hwf.mapOK, by rw [hcap]; exact h⟩
 
 /-! ## (3) the usage-driven policy -/
 
@@ -220,7 +257,7 @@ theorem served_first (xs : List FInfo) :
 /-- **C10 (3d)** the deletion loop walks that order from the front and stops as soon as the byte budget is
 met: the files it deletes are the unprotected ones of a prefix, everything after the prefix is kept, and
 the loop only stops early when the budget is exhausted. -/
-theorem policy_deletes_prefix (l : List FInfo) (s : State) (remain : Int) (hcap : s.cap = 0)
+theorem policy_deletes_prefix (l : List FInfo) (s : State) (remain : Int) (hcap : Pass.Fits s)
     (hnd : (KV.keys s.files).Nodup) (hlat : ∀ p ∈ s.files, p.2.lat.isSome) :
     ∃ k, k ≤ l.length ∧
       (∀ n f, (n, f) ∈ (policyDelete s remain l).files ↔
@@ -254,11 +291,37 @@ theorem force_cleanup_safe (i : Input) (h : (maybeDelete i).deleted = true) :
   · refine ⟨by cases he : i.expired <;> cases ho : i.owns <;> simp_all, ?_⟩
     intro hp
     simp only [hc, if_true, hp, beq_self_eq_true] at h ⊢
-    by_cases hx : (execAll i.tasks).2 = true
-    · simp only [hx, if_true]
-      exact execAll_ok _ hx
-    · simp [hx] at h
+    by_cases hff : i.findFails = true
+    · simp [hff] at h
+    · simp only [hff, if_false] at h ⊢
+      by_cases hx : (execAll i.tasks).2 = true
+      · simp only [hx, if_true]
+        exact execAll_ok _ hx
+      · simp [hx] at h
   · simp [hc] at h
+
+/-- the store-level effect of `maybeDelete` on the blob `n`: nothing unless it is a candidate; for a persisted
+blob the write-back tasks are executed first and the flag is cleared and the file deleted only if all of
+them succeeded -/
+def forceOps (i : Input) (n : Name) : List Op :=
+  if (maybeDelete i).deleted then
+    (if i.persist = some true then [Op.unpersist n] else []) ++ [Op.delete n]
+  else []
+
+/-- **C10 (4')** composed with the file store: whatever the state of the store, a blob marked persist is
+still on disk and still marked after a forced-cleanup visit unless every write-back task found for it was
+executed successfully. -/
+theorem force_cleanup_keeps_protected (i : Input) (s : State) (n : Name) (hp : Protected s n)
+    (hflag : i.persist = some true) (hfail : ∃ t ∈ i.tasks, t = false) :
+    Protected ((forceOps i n).foldl step s) n := by
+  have hnd : (maybeDelete i).deleted = false := by
+    cases h : (maybeDelete i).deleted with
+    | false => rfl
+    | true =>
+      obtain ⟨t, ht, hf⟩ := hfail
+      have := ((force_cleanup_safe i h).2 hflag).1 t ht
+      rw [hf] at this; cases this
+  simp [forceOps, hnd, hp]
 
 end force
 
